@@ -15,7 +15,8 @@ RULE = ("methods described as {phase: statements with explicit ids and depends_o
         "assignment of dependency sets over {all same-phase ids incl. self, one dangling id, one id of "
         "another phase} for 1-3 statements (thorough: plus all plain digraphs on 4 nodes), crossed with "
         "switch target {none, existing, missing} and <cond> flag writers {0,1,2 same phase, 1+1 different "
-        "phases}; random: 5-12 node graphs with planted long cycles. distinct = canonical JSON; "
+        "phases}; random: 5-12 node graphs with planted long cycles, a fifth of them filed under keys that differ "
+        "from the names the phase objects carry (or one phase object under two keys). distinct = canonical JSON; "
         "non-trivial = at least one dependency edge or a switch/flag statement")
 ASSUMPTIONS = [
     "statement ids are unique within a phase; different phases may re-use ids (the builder's ids are per phase)",
